@@ -453,6 +453,23 @@ fn run(ctx: &mut Ctx) {
                 }
             }
         }
+        // the packet inside correctly named and correctly headed chunks says it comes from another (known) board
+        {
+            let (nm, chip) = (base[pi].0.clone(), base[pi].1[10]);
+            let mut cs: Vec<alpha_g_detector::padwing::Chunk> = base.iter().filter(|x| x.0 == nm && x.1[10] == chip).map(|x| super::must_chunk(&x.1)).collect();
+            cs.sort_by_key(|c| c.chunk_id());
+            let payload: Vec<u8> = cs.iter().flat_map(|c| c.payload().to_vec()).collect();
+            if let Some(mut p) = crate::refs::pwb_ref(&payload) {
+                let other = crate::refs::PWB_BOARDS.iter().find(|x| x.1 != p.mac && !base.iter().any(|y| y.0[2..] == *x.0)).unwrap();
+                p.mac = other.1;
+                let mut b: Banks = base.iter().filter(|x| !(x.0 == nm && x.1[10] == chip)).cloned().collect();
+                for c in p.chunks(cs[0].board_id().device_id(), chip, 300) {
+                    b.push((nm.clone(), c.encode()));
+                }
+                rng.shuffle(&mut b);
+                inject(ctx, run, "PWB packet of another board inside the chunks of a bank", b, true);
+            }
+        }
         let mut b = base.clone();
         let other_pwb = crate::refs::PWB_BOARDS.iter().map(|x| x.0).find(|n| *n != &base[pi].0[2..]).unwrap();
         b[pi].0 = format!("PC{}", other_pwb);
